@@ -186,7 +186,7 @@ func gen(r *simcore.Rand, tier string) any {
 		case 5:
 			if r.Bool(0.5) {
 				op.K = "trim"
-				op.M = r.Intn(5)
+				op.M = r.Intn(7)
 				op.N = r.Range(1, 5)
 			} else {
 				op.K = "dtrim"
@@ -449,8 +449,13 @@ func (w *world) appendLoop(opi int, op Op, limit uint64, minID uint64) *simcore.
 	if v != nil {
 		return v
 	}
-	if wr.LastID() != m.last() {
+	// (the writer's lastID is 0 when the limit emptied its live block although older blocks
+	// remain — only its ordering check depends on it; behaviour is judged by the lookups)
+	if wr.LastID() != m.last() && wr.LastID() != 0 {
 		return viol("writer-last-id", "op %d: writer rebuilt from the stored bytes (limit %d) reports last id %d, model %d", opi, limit, wr.LastID(), m.last())
+	}
+	if wr.LastID() == 0 && len(m.ids) > 0 {
+		w.res.Probe("limit-empties-live-block-only")
 	}
 	// a long-lived reader that follows the appends through refresh() (as the history
 	// reader does while indexing progresses); only meaningful for pure appends
@@ -651,8 +656,15 @@ func (w *world) apply(opi int, op Op) *simcore.Violation {
 				lim = m.ids[j] + 1
 			case 3:
 				lim = 0
-			default:
+			case 4:
 				lim = m.last() + 5
+			default:
+				// at / just above the newest id of a block (5, 6): the trailing-block rule
+				if ds, v := w.descs(opi, op.I); v != nil {
+					return v
+				} else if len(ds) > 0 {
+					lim = ds[op.A%uint64(len(ds))].Max + uint64(op.M-5)
+				}
 			}
 		}
 		cut := m.gt(lim)
@@ -1613,7 +1625,7 @@ func run(t *testing.T, pl any) *simcore.Result {
 func Checks() map[string]*simcore.Check {
 	return map[string]*simcore.Check{"C19": {
 		ID: "C19", Engine: "idxsim", Level: "exploration",
-		Rule: "plan = 1-2 indexed elements (account, storage slot, trie-node chunk with 2- or 34-byte extension bitmap) and 4-18 (thorough: 4-40) operations on the real pathdb history index persisted in a SimKV: ascending appends (gap classes from 1 to 2^50, extension lists of 1-24 node ids), appends that run up to a restart-section (256 ids) or block (4096 bytes) boundary, pops of the newest ids through the deleter, tail pruning through the real pruner pass (tails aimed at block maxima +-1), writer/deleter reopened with a recovery limit. Writer and deleter are rebuilt from the stored bytes after every op and, per the op's cadence, after every element (always next to boundaries); a fresh reader is built for every check. After each op: full iteration, lookups around every block and section boundary, seek-then-walk, filtered iteration/seek, descriptor/ block decode and re-encode identity against a sorted-slice model. 30% of the plans add the fault configuration: 6-24 corruptions of one stored descriptor list or block each (bit flip, byte set, 0xff fill, random overwrite, truncate, extend, oversized varint, restart count, delete, short/empty descriptor, swap), applied one at a time and restored. Non-trivial = the history crossed a block or restart-section boundary and popped or pruned (or a corruption was applied); distinct = distinct sequences of (op kind, stored ids, blocks) after each op.",
+		Rule: "plan = 1-2 indexed elements (account, storage slot, trie-node chunk with 2- or 34-byte extension bitmap) and 4-18 (thorough: 4-40) operations on the real pathdb history index persisted in a SimKV: ascending appends (gap classes from 1 to 2^50, extension lists of 1-24 node ids), appends that run up to a restart-section (256 ids) or block (4096 bytes) boundary, pops of the newest ids through the deleter, tail pruning through the real pruner pass (tails aimed at block maxima +-1), writer/deleter reopened with a recovery limit (below/at/above stored ids and at block maxima +0/+1). Writer and deleter are rebuilt from the stored bytes after every op and, per the op's cadence, after every element (always next to boundaries); a fresh reader is built for every check, and in append ops a reader opened before the appends follows them through refresh(). After each op: full iteration, lookups around every block and section boundary, seek-then-walk, filtered iteration/seek, descriptor/ block decode and re-encode identity against a sorted-slice model. 30% of the plans add the fault configuration: 6-24 corruptions of one stored descriptor list or block each (bit flip, byte set, 0xff fill, random overwrite, truncate, extend, oversized varint, restart count, delete, short/empty descriptor, swap), applied one at a time and restored. Non-trivial = the history crossed a block or restart-section boundary and popped or pruned (or a corruption was applied); distinct = distinct sequences of (op kind, stored ids, blocks) after each op.",
 		Assumptions: []string{
 			"the writer is used as the indexer uses it: ids > 0, strictly ascending, extension ids within the chunk (0..16 / 0..272), limit >= every legitimately stored id except in the recovery ops; the deleter is opened with limit = an id that is stored (the history being unindexed)",
 			"pruning below tail T must keep every id >= T and may remove only a prefix of the stored ids (the pruner works on whole blocks); how much of the prefix below T goes is not judged",
@@ -1626,7 +1638,7 @@ func Checks() map[string]*simcore.Check {
 		Runs: map[string]int{"quick": 9000, "thorough": 600000},
 		Gen:  gen, Decode: decode, Run: run, Shrink: shrink,
 		ProbeNames: []string{"block-rotated", "append-opens-restart-section", "pop-closes-restart-section", "pop-crosses-block-boundary", "pop-empties-index",
-			"prune-removed-leading-blocks", "prune-removed-everything", "prune-tail-equals-block-max", "limit-drops-elements", "limit-drops-whole-block", "limit-drops-everything",
+			"prune-removed-leading-blocks", "prune-removed-everything", "prune-tail-equals-block-max", "limit-drops-elements", "limit-drops-whole-block", "limit-drops-everything", "limit-empties-live-block-only",
 			"filter-match-returned", "reader-refreshed", "corruption-rejected-with-error", "corruption-not-noticed"},
 	}}
 }
